@@ -598,6 +598,11 @@ Theorem c19_regions_of_info_src_refines : forall l, regions_of_info_src l = regi
 Proof. exact regions_of_info_src_refines. Qed.
 Print Assumptions c19_regions_of_info_src_refines.
 
+(* MinidumpLinuxMapInfo::is_readable / is_writable / is_executable: which rwx bit each predicate asks for, compiled *)
+Theorem c19_regions_of_maps_src_refines : forall l, regions_of_maps_src l = regions_of_maps l.
+Proof. exact regions_of_maps_src_refines. Qed.
+Print Assumptions c19_regions_of_maps_src_refines.
+
 (* the whole path from the raw records, for an arbitrary instruction analysis: c19_the_property and every other
    theorem about dump_pipeline / dump_adj is a theorem about what the correspondence run executes *)
 Theorem c19_dump_pipeline_src_refines : forall analysis arch pid e pc rs,
@@ -642,7 +647,7 @@ Theorem c19_the_property_maps_src : forall analysis arch platform_id e pc l,
   let os := os_class (dump_os platform_id) in
   let r := dump_reason arch platform_id e in
   let address := dump_address arch platform_id e in
-  let flips := dump_pipeline_src analysis arch platform_id e pc (regions_of_maps l) in
+  let flips := dump_pipeline_src analysis arch platform_id e pc (regions_of_maps_src l) in
   (forall f, In f flips ->
      exists a j, examined_by analysis c os r address pc f a /\
                  inaccessible (regions_of_maps l) (memop_of_reason r) a /\
